@@ -122,6 +122,27 @@ def rawStr (d : Disk) (p : Nat) : String :=
 /-- all lines through `readLine()` while `!end()` on an explicitly opened TextFile: the loop of `lines()` run by the caller -/
 def rlAll (h : Handle) : List (List UInt8) := linesLoop (readLineChunk - 2) h.rs []
 
+/-- one of the nine writers of `xput` / `xseq` on path 1a -/
+def applyApi (d0 : Disk) (api : String) (bs : List UInt8) : Option Disk :=
+  let viaSession (isText : Bool) (mode : OpenMode) : Option Disk :=
+    let r := openH d0 0 isText mode
+    r.1.map fun h => (writeAll r.2 h [bs]).1
+  match api with
+  | "put" => some (put d0 0 bs).2
+  | "tput" => some (tput d0 0 .write bs).2
+  | "tapp" => some (tput d0 0 .append bs).2
+  | "fw" => viaSession false .write
+  | "fa" => viaSession false .append
+  | "fsb" => viaSession false .write
+  | "fss" => viaSession false .write
+  | "tw" => viaSession true .write
+  | "ts" => viaSession true .write
+  | _ => none
+
+/-- `size()`, `content()`, and whether the POSIX view equals `content()` -/
+def threeViews (d : Disk) : String :=
+  s!"{size d 0} {showBytes (content d 0)} raw={b01 ((d 0) == some (content d 0))}"
+
 def step (st0 : St) (ts : List String) : St × String :=
   -- every operation that is not an operation *on the open session* closes the session first
   let sessionOps := ["w", "sb", "ss", "sc", "si", "r", "rl", "end", "seek", "pos"]
@@ -244,26 +265,16 @@ def step (st0 : St) (ts : List String) : St × String :=
     | none => (st, "bad-op")
   | ["xput", api, b] => match parseBytes b with
     | some bs =>
-      let d0 := st.disk.set 0 none
-      let viaSession (isText : Bool) (mode : OpenMode) : Option Disk :=
-        let r := openH d0 0 isText mode
-        r.1.map fun h => (writeAll r.2 h [bs]).1
-      let d1 : Option Disk := match api with
-        | "put" => some (put d0 0 bs).2
-        | "tput" => some (tput d0 0 .write bs).2
-        | "tapp" => some (tput d0 0 .append bs).2
-        | "fw" => viaSession false .write
-        | "fa" => viaSession false .append
-        | "fsb" => viaSession false .write
-        | "fss" => viaSession false .write
-        | "tw" => viaSession true .write
-        | "ts" => viaSession true .write
-        | _ => none
-      match d1 with
-      | some d => ({ st with disk := d },
-          s!"{size d 0} {showBytes (content d 0)} raw={b01 ((d 0) == some (content d 0))}")
+      match applyApi (st.disk.set 0 none) api bs with
+      | some d => ({ st with disk := d }, threeViews d)
       | none => (st, "bad-op")
     | none => (st, "bad-op")
+  | ["xseq", api1, b1, api2, b2] => match parseBytes b1, parseBytes b2 with
+    | some bs1, some bs2 =>
+      match (applyApi (st.disk.set 0 none) api1 bs1).bind fun d => applyApi d api2 bs2 with
+      | some d => ({ st with disk := d }, threeViews d)
+      | none => (st, "bad-op")
+    | _, _ => (st, "bad-op")
   | ["xcopy", b] => match parseBytes b with
     | some bs =>
       let d := (st.disk.set 0 (some bs)).set 1 none
